@@ -1,3 +1,4 @@
+\* vector generation: every history of 1..4 calls over a narrower alphabet
 CONSTANTS
   Pats = {"/a", "/*"}
   HKinds = {"ownAll"}
